@@ -547,3 +547,20 @@ func ip6(last byte) []byte {
 	b[0], b[15] = 0xfe, last
 	return b
 }
+
+// TypedDecoder is one exported value type with a FromBytes method (for other checks that want
+// to drive every typed decoding entry point, e.g. C08).
+type TypedDecoder struct {
+	Name string     // "dhcpv6.OptIANA"
+	Expr string     // Go expression creating a fresh receiver
+	New  func() any // fresh receiver (pointer)
+}
+
+// TypedDecoders lists the registry of typed decoding entry points.
+func TypedDecoders() []TypedDecoder {
+	var out []TypedDecoder
+	for _, t := range typedRegistry() {
+		out = append(out, TypedDecoder{t.pkg + "." + t.name, t.expr, t.mk})
+	}
+	return out
+}
